@@ -98,7 +98,7 @@ def ospan(s):
 
 
 def oextra(s):
-    evs = coq_list(["(Build_oevent %s %s %s)" % (Z(e["t"]), S(e["n"]), kvs(e.get("attrs") or [])) for e in (s.get("events") or [])])
+    evs = coq_list(["(Build_oevent %s %s %s %s)" % (Z(e["t"]), S(e["n"]), kvs(e.get("attrs") or []), Z(e.get("dropped", 0))) for e in (s.get("events") or [])])
     st = s.get("status")
     return "(Build_oextra %s %s)" % (evs, "(Some (Build_ostatus %s %s))" % (S(st["msg"]), Z(st["code"])) if st else "None")
 
@@ -120,7 +120,8 @@ def omore(m):
 
 def yread(c):
     """per stored row: the further fields of the span OutputQuery returned"""
-    return coq_list(["(Some %s)" % omore(r.get("more")) if r.get("ok") else "None" for r in (c["read"] or [])])
+    return coq_list(["(Some (%s, %s))" % (omore(r.get("more")), coq_list([Z(e.get("d", 0)) for e in (r.get("ev") or [])])) if r.get("ok") else "None"
+                     for r in (c["read"] or [])])
 
 
 def ores(r):
@@ -709,8 +710,8 @@ def run(ck):
         return
     ck.trusted += [
         "C06: the OTLP payload is concrete (SpansWireY.enc_spany = proto.Marshal byte for byte on every stored payload of the run: events, status, trace_state, dropped "
-        "counts, links and flags included; dec_spany (enc_spany s x y) = (s, x, y) proved); UTF-8 validation of protobuf strings and the dropped_attributes_count of an "
-        "EVENT (the one span field the generator never sets) are not modelled; the legacy JSON form of OTLP payloads (parseOTLPJson, written by the JS writer only) is not modelled in Coq: "
+        "counts (those of events included), links and flags: every field of trace.v1.Span; dec_spany (enc_spany s x y) = (s, x, y) proved); UTF-8 validation of protobuf "
+        "strings is not modelled (the generator's OTLP strings are UTF-8); the legacy JSON form of OTLP payloads (parseOTLPJson, written by the JS writer only) is not modelled in Coq: "
         "it is compared, span by span, with the read-back of the protobuf form outside Coq",
         "C06: the Zipkin payload is a JSON TOKEN STREAM (SpansJson: the write path's walk, the read path's parse, fields, kind, annotations are Gallina over tokens); "
         "the tokenizers themselves (bytes -> tokens: whitespace, escape decoding, number scanning, UTF-8) are the oracle: jx on every element text, fastjson on every "
